@@ -23,6 +23,8 @@ RULE = (
     'transfers in flight, sum of limit x scale <= throughput. non-trivial = >= 2 transfers '
     'overlapped; distinct = activation trace'
 )
+RULE = RULE + (' Further: near-ties with a real remainder, the largest float as a limit, crowds of minute shares (closed form), transfers requested early / dropped unstarted, clocks starting below zero.')
+
 LEVEL_TEXT = (
     'Fault enumeration by runtime monitoring against an exact fluid model: completion times of '
     'the real Pipe are compared with a Fraction-based processor-sharing simulation, including '
